@@ -1,3 +1,4 @@
+import Treepath.Proofs.Drive
 import Treepath.Spec.Eval
 import Treepath.Generated.Budget
 import Treepath.Proofs.MachineLemmas
@@ -52,6 +53,22 @@ theorem attempts_wrong_kind (s : Step J) (rest : List (Step J)) (vi : Nat) (n : 
     (hc : s.cls = .multi) (h : itemsOf s n.data.view = .wrongKind) :
     attempts (stream (s :: rest) vi n) = 1 := by
   simp [stream, hc, h, attempts]
+
+/-- **every query on a finite JSON tree terminates**: after finitely many actions the machine
+is exhausted, having emitted exactly the specification's stream — so the number of match
+attempts it performs *is* `attempts (stream …)`, whose closed form above counts one attempt
+per produced item plus one per exhaustion / failure: no re-scan, no restart, no spin -/
+theorem terminates_with_spec_work (steps : Array (Step J)) (src : Src J) (hq : Quiet steps.toList) :
+    ∃ k stD, hrun J.view steps src (1 + k) freshIter = (stD, stream steps.toList 0 src.rootNode) ∧ stD.act = .done ∧
+      attempts (hrun J.view steps src (1 + k) freshIter).2 = attempts (stream steps.toList 0 src.rootNode) := by
+  obtain ⟨k, stD, h1, h2⟩ := full_run steps src hq
+  exact ⟨k, stD, h1, h2, by rw [h1]⟩
+
+/-- once exhausted the machine spends one action per further `next()` and emits nothing but
+`stop` -/
+theorem exhausted_is_idle {α} (view : α → View α) (steps : Array (Step α)) (src : Src α) (k : Nat) (st : St α)
+    (h : st.act = .done) : hrun view steps src k st = (st, List.replicate k .stop) :=
+  hrun_done view steps src k st h
 
 /-- every `__next__` performs at most `loopBudget` actions: `next` is defined by structural
 recursion on the budget (Lean accepts the definition only because it terminates), and when
